@@ -24,6 +24,23 @@ def scratch_root():
     return core.scratch_dir('c20')
 
 
+def as_kind(path, kind):
+    """The path argument in the form a caller may legally pass it."""
+    if kind == 'pathlib':
+        import pathlib
+        return pathlib.Path(path)
+    if kind == 'bytes':
+        return os.fsencode(path)
+    return path
+
+
+def same_path(p, path):
+    try:
+        return os.fsdecode(os.fspath(p)) == path
+    except TypeError:
+        return False
+
+
 def content_of(spec):
     """spec: [seed, size]"""
     import random
@@ -250,6 +267,15 @@ class C20(Check):
                                            'parent-missing')),
                       'errno': None, 'twice': rng.random() < 0.5,
                       'default_remove': rng.random() < 0.6})
+        krng = st('kinds')
+        if fn != 'tempfile':
+            c['path_kind'] = core.weighted(krng, [(None, 6), ('pathlib', 2),
+                                                  ('bytes', 1)])
+        else:
+            c['content_kind'] = core.weighted(krng, [(None, 6),
+                                                     ('bytearray', 1),
+                                                     ('memoryview', 1)])
+            c['path_kind'] = core.weighted(krng, [(None, 6), ('pathlib', 2)])
         return c
 
     # ----------------------------------------------------------------------
@@ -317,20 +343,23 @@ class C20(Check):
             self.bump('probes', 'real_file_route')
         else:
             def sim_open(p, mode='r', *a, **k):
-                if p != path or 'b' not in mode or 'r' not in mode:
+                if not same_path(p, path) or 'b' not in mode or \
+                        'r' not in mode:
                     raise core.HarnessError('unexpected open(%r, %r)' % (
                         p, mode))
                 sf = SimFile(data, short=case.get('short'),
-                             fault=case.get('fault'), cyclic=True, name=p)
+                             fault=case.get('fault'), cyclic=True, name=path)
                 sf.cap = size + 16
                 files.append(sf)
                 return sf
             fu.open = sim_open
         try:
             if case.get('default_args') and case['alg'] == 'sha256':
-                got = fu.compute_file_checksum(path)
+                got = fu.compute_file_checksum(as_kind(
+                    path, case.get('path_kind')))
             else:
-                got = fu.compute_file_checksum(path, read_chunksize=ch,
+                got = fu.compute_file_checksum(as_kind(
+                    path, case.get('path_kind')), read_chunksize=ch,
                                                algorithm=case['alg'])
             out = ('ok', got)
         except core.StepCapExceeded:
@@ -487,12 +516,13 @@ class C20(Check):
         else:
             def sim_open(p, mode='r', *a, **k):
                 sf = SimFile(data, seek_fault={'errno': seek_errno}
-                             if seek_errno else None, name=p)
+                             if seek_errno else None, name=path)
                 files.append(sf)
                 return sf
             fu.open = sim_open
         try:
-            out = ('ok', fu.last_bytes(path, n))
+            out = ('ok', fu.last_bytes(as_kind(path, case.get('path_kind')),
+                                       n))
         except OSError as e:
             out = ('oserror', e.errno)
         except Exception as e:
@@ -555,7 +585,12 @@ class C20(Check):
                 rec['opened'].clear()
                 rec['closed'].clear()
                 try:
-                    p = fu.write_to_tempfile(data, path=d,
+                    ck = case.get('content_kind')
+                    payload = (bytearray(data) if ck == 'bytearray' else
+                               memoryview(data) if ck == 'memoryview'
+                               else data)
+                    p = fu.write_to_tempfile(payload, path=as_kind(
+                        d, case.get('path_kind')) if d else d,
                                              suffix=case['suffix'],
                                              prefix=case['prefix'])
                     out = ('ok', p)
@@ -658,7 +693,7 @@ class C20(Check):
         outs = []
         for _rep in range(2 if case.get('twice') else 1):
             try:
-                fu.ensure_tree(p)
+                fu.ensure_tree(as_kind(p, case.get('path_kind')))
                 outs.append(('ok',))
             except OSError as ex:
                 outs.append(('oserror', ex.errno))
@@ -716,7 +751,7 @@ class C20(Check):
                         raise OSError(e, 'injected', path)
                     fu.delete_if_exists(p, remove=remover)
                 elif case.get('default_remove', True):
-                    fu.delete_if_exists(p)
+                    fu.delete_if_exists(as_kind(p, case.get('path_kind')))
                 else:
                     def remover(path):
                         calls.append(path)
